@@ -115,6 +115,8 @@ def adaptOp (m : Schema) : SeqOp → Option (ROp Sig)
   | .pop i => some (.pop i)
   | .remove a => some (.remove (adaptArg m a))
   | .reverse => some .reverse
+  | .clear => some (.assign [])        -- `l.clear()` is `l[:] = []`
+  | .imul _ => none                    -- `*=` is outside the property's operation list (see `positional_step`)
   | .sort (some k) rev => some (.sort (sigLe k rev))
   | .sort none _ => none
   | .set (.list xs) => some (.assign (xs.map (fun r => adaptArg m (.plain r))))
@@ -728,6 +730,12 @@ theorem step_refines {m : Schema} {n : Node} (h : SeqOK m n) (hk : SeqKind n) (o
   | pop i => cases hr; exact pop_refines h i next
   | remove a => cases hr; exact remove_refines h a hop next
   | reverse => cases hr; exact reverse_refines h next
+  | clear =>
+    cases hr
+    unfold seqStep
+    simp only [h.member]
+    exact ⟨by simp [refStep], by intro _; rfl, seqOK_withKids h _ (by simp)⟩
+  | imul c => cases hr
   | sort k rev =>
     cases k with
     | none => cases hr
@@ -937,6 +945,22 @@ theorem wn_setDefault (n : Node) (hl : n.kind = .list) (h : WellNumbered n.kids)
       · exact h
     · exact wn_setNode _ hl _ _ _
 
+theorem wn_imulLoop (m : Schema) (vals : List Arg) (k : Nat) (n : Node) (hl : n.kind = .list)
+    (h : WellNumbered n.kids) (next : Nat) :
+    WellNumbered (imulLoop m vals k n next).1.kids := by
+  induction k generalizing n next with
+  | zero => exact h
+  | succ k ih =>
+    rw [imulLoop]
+    have hw := wn_extendArgs m n hl h vals next
+    have hh := extendArgs_hdr m n vals next
+    have hk : (extendArgs m n vals next).1.kind = .list := by
+      have : (extendArgs m n vals next).1.sch = n.sch := congrArg (fun t => t.2.2.1) hh
+      unfold Node.kind; rw [this]; exact hl
+    split
+    · rename_i he; rw [he] at hw; exact hw
+    · rename_i he; rw [he] at hw hk; exact ih _ hk hw _
+
 /-- **positional.**  A List whose slots are named by their positions keeps them so under every
     call, successful or raising: slot `i` is named `i`, so flat names and `find('<i>')`
     address member `i`. -/
@@ -988,6 +1012,12 @@ theorem positional_step (n : Node) (hl : n.kind = .list) (h : WellNumbered n.kid
         · exact h
         · simp only [kids_withKids]; exact wn_renumber _
     | reverse => simp only [kids_withKids]; exact wn_renumber _
+    | clear => simp only [kids_withKids]; exact wn_nil
+    | imul c =>
+      dsimp only
+      split
+      · simp only [kids_withKids]; exact wn_renumber _
+      · split <;> exact wn_imulLoop _ _ _ n hl h _
     | sort k r =>
       dsimp only
       split
